@@ -2,7 +2,7 @@
    the refutations of the code before commit 2959d55, and the non-vacuity examples. *)
 From Coq Require Import Permutation.
 From C16 Require Import Model CaseDefs Proofs.
-From C16 Require Import ModelExt ModelDeadline ProofsDeadline ProofsDeadlineContent.
+From C16 Require Import ModelExt ModelDeadline ProofsDeadline ProofsDeadlineContent ModelRetain ProofsRetain.
 
 (* Per shard: the replicas are tried in order; plain errors are skipped; the first replica that does
    anything else decides: an answer, or a special refusal (too-many-uniq fails the shard at once). *)
@@ -632,3 +632,26 @@ Proof.
   exists (Some 3), [[(0, BOk [(9,0)]%N X0, Some 1)]; [(1, BOk [(8,0)]%N X0, Some 5)]], [(0, [(9,0)]%N)], [X0], 3.
   repeat split; try (vm_compute; reflexivity); try apply le_n.
 Qed.
+
+(* ================================================================ extension (round 8): OldestCT after retention *)
+
+(* After a retention pass that truncated the k oldest-listed fractions, OldestCT — which the hot store's
+   wants-old refusal (C16_hot_refusal) compares `from` with — is the creation time of the oldest REMAINING
+   fraction: a member of the remaining list and not above any of them (whatever OldestCT was before). *)
+Theorem C16_oldest_after_truncation : forall prev cts k,
+  skipn k cts <> [] -> Forall (fun c => c <> 0%N) (skipn k cts) ->
+  In (oldest_after prev cts k) (skipn k cts)
+  /\ Forall (fun c => (oldest_after prev cts k <= c)%N) (skipn k cts).
+Proof. exact oldest_after_truncation. Qed.
+Print Assumptions C16_oldest_after_truncation.
+
+(* hypotheses witnessed; and the seeded variant (the local list is not advanced past the truncated fractions)
+   keeps the creation time of a fraction it has just deleted: a range starting between the two is answered
+   instead of refused *)
+Example C16_oldest_after_truncation_example :
+  skipn 2 [10; 20; 30; 40]%N <> [] /\ Forall (fun c => c <> 0%N) (skipn 2 [10; 20; 30; 40]%N)
+  /\ oldest_after 10 [10; 20; 30; 40]%N 2 = 30%N
+  /\ oldest_after_stale 10 [10; 20; 30; 40]%N 2 = 10%N
+  /\ earlier_than_oldest (oldest_after 10 [10; 20; 30; 40]%N 2) 25 = true
+  /\ earlier_than_oldest (oldest_after_stale 10 [10; 20; 30; 40]%N 2) 25 = false.
+Proof. repeat split; try (vm_compute; reflexivity); [discriminate | repeat constructor; discriminate]. Qed.
